@@ -37,6 +37,9 @@ PUMP_GEN_CFG = "INIT GenInit\nNEXT GenNext\nCHECK_DEADLOCK FALSE\n"
 PUMP_VAL_CFG = "INIT ValInit\nNEXT ValNext\nCHECK_DEADLOCK FALSE\nINVARIANT WorkWithinQuadratic\n"
 
 
+DSL_ENTRIES = ("TransformDSLToProto", "TransformDSLToJSON", "TransformModularDSLToProto", "TransformModuleFilesToModel")
+
+
 def mutation_jobs(tier):
     rng = random.Random(SEED)
     jobs = []
@@ -47,6 +50,17 @@ def mutation_jobs(tier):
                 jobs.append({"doc": d, "mut": [[kind, i, 0]]})
             for j in range(0, 40, 1 if tier == "thorough" or d == 0 else 4):
                 jobs.append({"doc": d, "mut": [["sub", i, j]]})
+    # a character outside the lexer's alphabet glued to the end of every lexeme: the lexer drops it, the remaining tokens are a
+    # sentence, and yet "a syntax error in the input is always reported through the returned error"
+    for d in ([0, 5, 7, 14] if tier == "quick" else list(range(0, 27))):
+        for i in range(90):
+            for j in ((i % 10, (i + 3) % 10) if tier == "quick" else range(10)):
+                jobs.append({"doc": d, "mut": [["junk", i, j]]})
+    # module files whose lines end in a bare CR or a form feed (both are line terminators for the lexer, neither for the
+    # line lookups of the merge errors): the documents of the universe that declare `type user` / `type doc` collide with core.fga
+    for d in range(0, 54 if tier == "quick" else 540):
+        for eol in ("\r", "\f"):
+            jobs.append({"doc": d, "style": dict(chk_dsl.BASE_STYLE, eol=eol, fin=rng.choice(["", eol]))})
     for _ in range(3000 if tier == "quick" else 40000):
         jobs.append({"doc": rng.randrange(0, 300), "mut": [[rng.choice(["del", "dup", "sub", "swap", "cut", "sub"]), rng.randrange(0, 200), rng.randrange(0, 40)] for _ in range(2)]})
     out = []
@@ -54,7 +68,10 @@ def mutation_jobs(tier):
         style = dict(chk_dsl.BASE_STYLE)
         if k % 5 == 4:
             style = {kk: rng.choice(v) for kk, v in chk_dsl.STYLE_SPACE.items()}
-        out.append({"id": "T%d" % k, "doc": j["doc"], "viol": 0, "vsite": 0, "style": style, "ov": [], "mut": j["mut"]})
+        o = {"id": "T%d" % k, "doc": j["doc"], "viol": 0, "vsite": 0, "style": j.get("style", style), "ov": []}
+        if "mut" in j:
+            o["mut"] = j["mut"]
+        out.append(o)
     return out
 
 
@@ -69,8 +86,9 @@ def run(pid, tier):
         jobs = mutation_jobs(tier)
         jf = sc.path("layout_jobs.ndjson")
         write_ndjson(jf, jobs)
-        res = run_tlc("DslLayoutMC", chk_dsl.LAYOUT_CFG, sc, data_files={"layout_jobs.ndjson": jf}, defs=chk_dsl.LAYOUT_DEFS, timeout=3000)
+        res = run_tlc("DslLayoutMC", chk_dsl.LAYOUT_CFG, sc, data_files={"layout_jobs.ndjson": jf}, defs=chk_dsl.LAYOUT_DEFS, timeout=3000, cache=True)
         texts = {r["id"]: r["text"] for r in res.records}
+        mustreject = {r["id"] for r in res.records if r["mustreject"]}
         if len(texts) != len(jobs):
             raise Infra("TLC rendered %d of %d mutation jobs\n%s" % (len(texts), len(jobs), res.tail[-1500:]))
         # ---- d. auxiliary: random byte mutations of the fixture corpus
@@ -99,6 +117,12 @@ def run(pid, tier):
                 if r.startswith("panic"):
                     chk.violation("%s panics on %s input %s: %s" % (entry, "a token-mutated" if o["id"].startswith("T") else "a byte-mutated fixture", o["id"], r[:200]),
                                   {"entry": entry, "text": alltexts[o["id"]], "result": r, "model_derived": o["id"].startswith("T")})
+            if o["id"] in mustreject:
+                chk.add("unlexable_documents")
+                for entry in DSL_ENTRIES:
+                    if o["results"][entry] == "ok":
+                        chk.violation("%s returns a result and no error for a document with a character the lexer has no rule for (%s)" % (entry, o["id"]),
+                                      {"entry": entry, "text": alltexts[o["id"]], "result": "ok", "expected": "error", "model_derived": True})
             if o["ms"] > 2000:
                 slow.append((o["id"], o["ms"], o["len"]))
         for s in slow[:3]:
@@ -263,6 +287,8 @@ def replay(pid, path):
             for entry, res in read_ndjson(out)[0]["results"].items():
                 if res.startswith("panic"):
                     chk.violation("still: %s panics: %s" % (entry, res[:200]), r)
+                if r.get("expected") == "error" and entry == r.get("entry") and res == "ok":
+                    chk.violation("still: %s returns no error" % entry, r)
         elif "holes" in r:
             inp, out = sc.path("r.in.ndjson"), sc.path("r.out.ndjson")
             write_ndjson(inp, [{"base": r["base"], "holes": r["holes"]}])
